@@ -286,6 +286,13 @@ def shrink(c):
         yield d
 
 
+# functions of the implementation this property is anchored in: their line coverage under the correspondence cases is
+# measured on the staged copy and reported in the evidence (implementation_line_coverage)
+ANCHORS = [
+    "datascope/importance/shapley.py:ShapleyImportance._shapley_montecarlo",
+    "datascope/utility/provenance.py:Provenance.query",
+]
+
 MANIFEST = {
     "text": "Proof: C04_mc_is_marginal_average / C04_one_permutation (for every utility, provenance, iteration count and "
             "EVERY sequence of sampled permutations the untruncated scores are the average of each unit's marginal "
